@@ -3,6 +3,7 @@
 package ethereum
 
 import (
+	"sync/atomic"
 	"bytes"
 	"context"
 	"fmt"
@@ -159,14 +160,20 @@ func runC10(c c10Case) (*vh.Violation, vh.Outcome) {
 		return h
 	}
 	pendingLen := func() int { w.pendingMu.Lock(); defer w.pendingMu.Unlock(); return len(w.pending) }
-	died := func() bool {
-		select {
-		case <-runErr:
-			return true
-		default:
-			return false
+	var deaths, handledDeaths int32 // Run returned / the harness has waited for the next incarnation
+	restartFrom := 0                // requests served before the current incarnation connected
+	fetchLogs := 1                  // "fetching guardian set" lines seen so far (one per incarnation, plus one every 15 s)
+	go func() {
+		for {
+			select {
+			case <-runErr:
+				atomic.AddInt32(&deaths, 1)
+			case <-ctx.Done():
+				return
+			}
 		}
-	}
+	}()
+	diedNow := func() bool { return atomic.LoadInt32(&deaths) > atomic.LoadInt32(&handledDeaths) }
 	// settle: the watcher has seen the current head (if it is polling) and finished processing it
 	settle := func() bool {
 		return waitFor(3*time.Second, func() bool {
@@ -177,7 +184,7 @@ func runC10(c c10Case) (*vh.Violation, vh.Outcome) {
 			head := sim.view(headTag)
 			// the poller's first answer only initialises its cursor: no header is published (or processed) for it
 			first, haveFirst := uint64(0), false
-			for k := range sim.served {
+			for k := restartFrom; k < len(sim.served); k++ {
 				if sv := sim.served[k]; sv.method == "eth_getBlockByNumber" && sv.arg == headTag && !sv.err {
 					first, haveFirst = sv.head, true
 					break
@@ -191,11 +198,35 @@ func runC10(c c10Case) (*vh.Violation, vh.Outcome) {
 		})
 	}
 
+	// When Run returns with an error the supervisor starts it again (same Watcher object, new connection). The case goes
+	// on once the new incarnation has subscribed; what was pending before must still be confirmed afterwards.
+	awaitRestart := func() bool {
+		// the new incarnation subscribes to the logs and then fetches the guardian set (logged each time)
+		ok := waitFor(8*time.Second, func() bool { return countLog("fetching guardian set") > fetchLogs && sim.nsubs() >= 1 })
+		fetchLogs = countLog("fetching guardian set")
+		sim.mu.Lock()
+		restartFrom = len(sim.served)
+		if len(sim.subs) > 1 {
+			sim.subs = sim.subs[len(sim.subs)-1:] // the subscriptions of earlier incarnations died with their connections
+		}
+		sim.mu.Unlock()
+		atomic.StoreInt32(&handledDeaths, atomic.LoadInt32(&deaths))
+		time.Sleep(2 * time.Millisecond)
+		return ok
+	}
+	maybeLost := map[eth_common.Hash]bool{} // logs published while no incarnation was subscribed
 	var txs []*simTx
 	reorgOrJump, reobs := false, false
 	maxCL := 0
 	for i, o := range c.Ops {
 		setOp(i)
+		if diedNow() {
+			out.Labels = append(out.Labels, "watcher-restarted")
+			collect()
+			if !awaitRestart() {
+				return inconclusive("watcher-did-not-restart")
+			}
+		}
 		switch o.K {
 		case "log":
 			sim.mu.Lock()
@@ -226,8 +257,11 @@ func runC10(c c10Case) (*vh.Violation, vh.Outcome) {
 			found0 := countLog("found new message publication transaction")
 			matched := sim.publish(t)
 			sim.mu.Unlock()
-			if matched > 0 && !waitFor(3*time.Second, func() bool { return countLog("found new message publication transaction") >= found0+matched || died() }) {
+			if matched > 0 && !waitFor(3*time.Second, func() bool { return countLog("found new message publication transaction") >= found0+matched || diedNow() }) {
 				return inconclusive("log-not-consumed")
+			}
+			if countLog("found new message publication transaction") < found0+matched {
+				maybeLost[t.Hash] = true // the subscription went away while the log was on its way
 			}
 			time.Sleep(500 * time.Microsecond)
 		case "advance":
@@ -269,7 +303,7 @@ func runC10(c c10Case) (*vh.Violation, vh.Outcome) {
 			continue
 		case "fault":
 			sim.mu.Lock()
-			sim.faults[[]string{"eth_getTransactionReceipt", "eth_getBlockByNumber"}[o.A%2]] = 1 + o.B%2
+			sim.faults[[]string{"eth_getTransactionReceipt", "eth_getBlockByNumber"}[o.A%2]] = 1 + o.B%4 // three failed head polls in a row end this incarnation of the watcher
 			sim.mu.Unlock()
 			out.Labels = append(out.Labels, "fault")
 			continue
@@ -304,51 +338,63 @@ func runC10(c c10Case) (*vh.Violation, vh.Outcome) {
 			}
 			time.Sleep(3 * time.Millisecond)
 		}
-		if died() {
+		if diedNow() {
 			out.Labels = append(out.Labels, "watcher-restarted")
 			collect()
-			break
+			if !awaitRestart() {
+				return inconclusive("watcher-did-not-restart")
+			}
+			continue
 		}
 		if !settle() {
-			if died() {
+			if diedNow() {
 				out.Labels = append(out.Labels, "watcher-restarted")
 				collect()
-				break
+				if !awaitRestart() {
+					return inconclusive("watcher-did-not-restart")
+				}
+				continue
 			}
 			return inconclusive("step-did-not-settle")
 		}
 		time.Sleep(300 * time.Microsecond)
 		collect()
 	}
+	// final stretch: make every pending message deep enough, in one jump (finality catching up), then ordinary blocks
+	// while something is still pending: whatever could not be fetched gets further chances (injected faults last a few calls)
+	setOp(len(c.Ops))
+	finalStep := func(n uint64) (bool, string) {
+		sim.mu.Lock()
+		sim.lag = 0
+		sim.head += n
+		sim.mu.Unlock()
+		if !settle() {
+			if diedNow() {
+				out.Labels = append(out.Labels, "watcher-restarted")
+				collect()
+				if !awaitRestart() {
+					return false, "watcher-did-not-restart"
+				}
+				return true, ""
+			}
+			return false, "final-step-did-not-settle"
+		}
+		time.Sleep(time.Millisecond)
+		collect()
+		return true, ""
+	}
+	if ok, why := finalStep(uint64(maxCL + 2)); !ok {
+		return inconclusive(why)
+	}
+	for round := 0; round < 8 && (round == 0 || pendingLen() > 0 || diedNow()); round++ {
+		if ok, why := finalStep(1); !ok {
+			return inconclusive(why)
+		}
+	}
 	restarted := false
 	for _, l := range out.Labels {
 		if l == "watcher-restarted" {
 			restarted = true
-		}
-	}
-	// final stretch: make every pending message deep enough, in one jump (finality catching up)
-	if !restarted {
-		setOp(len(c.Ops))
-		sim.mu.Lock()
-		sim.lag = 0
-		sim.head += uint64(maxCL + 2)
-		sim.mu.Unlock()
-		if !settle() {
-			return inconclusive("final-step-did-not-settle")
-		}
-		time.Sleep(time.Millisecond)
-		collect()
-		// ordinary blocks while something is still pending: whatever could not be fetched gets further chances
-		// (injected faults last at most two calls)
-		for round := 0; round < 6 && (round == 0 || pendingLen() > 0); round++ {
-			sim.mu.Lock()
-			sim.head++
-			sim.mu.Unlock()
-			if !settle() {
-				return inconclusive("final-step-did-not-settle")
-			}
-			time.Sleep(time.Millisecond)
-			collect()
 		}
 	}
 
@@ -444,8 +490,12 @@ func runC10(c c10Case) (*vh.Violation, vh.Outcome) {
 		}
 	}
 	out.NonTrivial = reorgOrJump && nForwarded > 0
-	if !restarted && !reobs {
+	_ = restarted
+	if !reobs {
 		for _, t := range txs {
+			if maybeLost[t.Hash] {
+				continue
+			}
 			for _, lg := range t.Logs {
 				if lg.Addr != c10Contract || lg.Topic0 != LogMessagePublishedTopic {
 					continue
@@ -519,7 +569,7 @@ func genC10(t *rapid.T) c10Case {
 		case "reorg":
 			return c10Op{K: "reorg", A: rapid.IntRange(0, 9).Draw(t, "tx"), B: rapid.IntRange(0, 3).Draw(t, "mode")}
 		case "fault":
-			return c10Op{K: "fault", A: rapid.IntRange(0, 1).Draw(t, "m"), B: rapid.IntRange(0, 1).Draw(t, "n")}
+			return c10Op{K: "fault", A: rapid.IntRange(0, 1).Draw(t, "m"), B: rapid.SampledFrom([]int{0, 0, 0, 0, 0, 0, 0, 0, 1, 1, 1, 1, 1, 1, 1, 1, 2, 3}).Draw(t, "n")}
 		}
 		return c10Op{K: "reobserve", A: rapid.IntRange(0, 9).Draw(t, "tx")}
 	})
